@@ -357,6 +357,22 @@ def random_ops(seed, length=40):
                 ops.append(["put", n0, b0])
                 ops.append(["delete", n0])
                 ops.append(["put", n0, b0])
+        elif r < 0.36:
+            # a member that cannot be parsed (damaged on disk), repaired under the same name later on
+            broken = {}
+            for o in ops:
+                if o[0] == "put":
+                    broken[o[1]] = (o[2] == "bad")
+                elif o[0] == "delete":
+                    broken.pop(o[1], None)
+            bad = sorted(n for n, b in broken.items() if b)
+            if bad:
+                n0 = rng.choice(bad)
+                if rng.random() < 0.5:
+                    ops.append(["delete", n0])
+                ops.append(["put", n0, rng.choice(favoured)])
+            else:
+                ops.append(["put", rng.choice(names), "bad"])
         else:
             # repeat a few focus filters often so that thresholds are crossed and the
             # index is reset and extended; sometimes another filter
